@@ -808,6 +808,16 @@ func c14fileInfo(r *rand.Rand, special bool) *mdiff.FileInfo {
 	if r.IntN(4) == 0 {
 		fi.Left = ""
 	}
+	if special && r.IntN(6) == 0 {
+		// names that tools give a meaning of their own (git and GNU patch read
+		// /dev/null as "no such file"): not for texts handed to GNU patch
+		toolNames := []string{"/dev/null", "/dev/null", "a//dev/null", "/dev/stdin", "-", "NUL", ".", "/"}
+		if r.IntN(2) == 0 {
+			fi.Left = toolNames[r.IntN(len(toolNames))]
+		} else {
+			fi.Right = toolNames[r.IntN(len(toolNames))]
+		}
+	}
 	mk := func() time.Time {
 		if r.IntN(3) == 0 {
 			return time.Time{}
@@ -1022,8 +1032,10 @@ func c14git(c *fw.Ctx, r *rand.Rand) {
 	nfiles := 1 + r.IntN(4)
 	var sb strings.Builder
 	type exp struct {
-		name  string
-		hunks []uHunk
+		name         string
+		hunks        []uHunk
+		lname, rname string
+		unified      string // what Unified wrote for this file
 	}
 	var want []exp
 	if r.IntN(2) == 0 {
@@ -1040,21 +1052,36 @@ func c14git(c *fw.Ctx, r *rand.Rand) {
 			d.AddContext(n).Unify()
 		}
 		name := []string{"f.go", "dir/g.txt", "h i.md", "ü"}[r.IntN(4)] + strconv.Itoa(f)
+		// header names: the usual a/ b/ pair, the /dev/null that git writes on the
+		// missing side of a created or deleted file, or any of the awkward names
+		lname, rname, mode := "a/"+name, "b/"+name, r.IntN(6)
+		switch mode {
+		case 3:
+			lname = "/dev/null"
+		case 4:
+			rname = "/dev/null"
+		case 5:
+			lname, rname = c14names[r.IntN(len(c14names))], c14names[r.IntN(len(c14names))]
+		}
 		var buf bytes.Buffer
-		mdiff.Unified(&buf, d.Chunks, &mdiff.FileInfo{Left: "a/" + name, Right: "b/" + name})
+		mdiff.Unified(&buf, d.Chunks, &mdiff.FileInfo{Left: lname, Right: rname})
 		lines := splitLines(buf.String())
 		_, _, _, hunks, _, err := parseUnifiedRef(lines)
 		if err != nil {
 			return // reported by the unified monitor
 		}
 		fmt.Fprintf(&sb, "diff --git a/%s b/%s\n", name, name)
-		switch r.IntN(3) {
-		case 0:
+		switch mode {
+		case 0, 5:
 			sb.WriteString("index 83db48f..bf269f4 100644\n")
 		case 1:
 			sb.WriteString("old mode 100644\nnew mode 100755\nindex 83db48f..bf269f4\n")
 		case 2:
 			sb.WriteString("similarity index 90%\nindex 0000000..1111111 100644\n")
+		case 3:
+			sb.WriteString("new file mode 100644\nindex 0000000..bf269f4\n")
+		case 4:
+			sb.WriteString("deleted file mode 100644\nindex 83db48f..0000000\n")
 		}
 		for _, ln := range lines {
 			if strings.HasPrefix(ln, "@@ ") && r.IntN(2) == 0 {
@@ -1062,7 +1089,8 @@ func c14git(c *fw.Ctx, r *rand.Rand) {
 			}
 			sb.WriteString(ln + "\n")
 		}
-		want = append(want, exp{name, hunks})
+		want = append(want, exp{name, hunks, lname, rname, buf.String()})
+		c.Add(fmt.Sprintf("git_header_name_mode_%d", mode), 1)
 	}
 	text := sb.String()
 	data := map[string]any{"git_patch_text": fw.Q(text)}
@@ -1078,12 +1106,18 @@ func c14git(c *fw.Ctx, r *rand.Rand) {
 		return
 	}
 	for i, p := range ps {
-		if p.FileInfo == nil || p.FileInfo.Left != "a/"+want[i].name || p.FileInfo.Right != "b/"+want[i].name {
-			c.Fail(data, "patch %d: file info %+v, want names a/%s b/%s", i, p.FileInfo, want[i].name, want[i].name)
+		if p.FileInfo == nil || p.FileInfo.Left != want[i].lname || p.FileInfo.Right != want[i].rname {
+			c.Fail(data, "patch %d: file info %+v, want names %q %q", i, p.FileInfo, want[i].lname, want[i].rname)
 			return
 		}
 		switch cl := classifyUnifiedRead(p.Chunks, want[i].hunks); cl {
 		case "ok":
+			var b2 bytes.Buffer
+			p.Format(&b2, mdiff.Unified)
+			if got := b2.String(); got != want[i].unified && !strings.Contains(text, " func context(here int) {") {
+				c.Fail(data, "patch %d: re-formatting what ReadGitPatch read gives %q, the wrapped unified text was %q", i, got, want[i].unified)
+				return
+			}
 		case "f5":
 			c.Known("F5", data, "ReadGitPatch patch %d: omitted count read as a zero-length range: got %s", i, chunksString(p.Chunks))
 		default:
